@@ -97,7 +97,7 @@ class Scenarios:
         for dt in {d for (d, _) in convtab}:
             for t in extra_values:
                 r = refconv.convert(dt, t)
-                convtab[(dt, t)] = {"ok": r is not None, "v": r or ""}
+                convtab[(dt, enc(t))] = {"ok": r is not None, "v": r or ""}
         parts = ["MCSchemas == " + tlc.tla_value([schemas.for_tla(r) for r in self.recs]),
                  "KeyTab == " + tlc.tla_value(keytab),
                  "ConvTab == " + tlc.tla_value(convtab),
